@@ -61,8 +61,24 @@ pub fn build_argv(c: &Case) -> (Vec<String>, Option<String>) {
                 ..Default::default()
             },
         };
+        // every third stdin case: the document is one an earlier stage has bumped away from its tag
+        // (major + 1, a stale post), and the tag is given again with --tag-version: the override
+        // sets every version field, so flow starts from the tag all the same
+        let restated = c.hash_len.unwrap_or(0) % 3 == 1 && t.major < 4_000_000_000;
+        let z = if restated {
+            let mut z2 = z.clone();
+            z2.vars.major = Some(t.major + 1);
+            z2.vars.post = Some(z2.vars.post.unwrap_or(0).min(4_000_000_000) + 3);
+            z2
+        } else {
+            z
+        };
         stdin = z.to_zerv().ok().map(|z| z.to_string());
         f.push(Flag::v("source", "stdin"));
+        if restated {
+            f.push(Flag::v("tag-version", c.tag.semver()));
+            f.push(Flag::v("input-format", "semver"));
+        }
     } else {
         f.push(Flag::v("source", "none"));
         f.push(Flag::v("tag-version", c.tag.semver()));
